@@ -123,7 +123,11 @@ fn small_config(rng: &mut Rng, rate: RateKind) -> (usize, usize, usize) {
         _ => gen::Class::Edge,
     };
     let (k, r) = gen::config(rng, class, rate);
-    let size = *rng.pick(&[2usize, 4, 30, 64, 66, 130]);
+    let size = if k.max(r) <= 16 && rng.chance(1, 12) {
+        *rng.pick(&[4096usize, 65534, 65536])
+    } else {
+        *rng.pick(&[2usize, 4, 30, 64, 66, 130])
+    };
     (k, r, size)
 }
 
